@@ -24,6 +24,7 @@ Thread == /\ IsEv("thread") /\ UNCHANGED <<tix, ncs>>
           /\ E.ended < E.joined                         \* join returned after the function had finished
           /\ E.seen = E.cell                            \* ... and its effects were visible to the joiner
           /\ E.handoff = 1                              \* what the parent put into the thread's storage before the start was there, intact
+          /\ E.withbad = 0                             \* with (m in <expression>): the Mutex that was acquired is held inside the block and released at its end, no other
           /\ E.liveatjoin = 0                           \* ... including its teardown: everything it still managed is finalised
 CS == /\ IsEv("cs")
       /\ E.tout = E.tin + 1                             \* nobody else was inside between entry and exit
